@@ -1,8 +1,834 @@
-//! C19 — not built yet.
+//! C19 — LWE extraction, field trace and packing place coefficients as documented.
+//!
+//! E1 sections (all deciding steps are exhaustive loops on the real code, oracle = the
+//! coefficient view of the decrypted result):
+//!  * `shift`    `negacyclic_shift`, `_p`, `_ps` directly: every N = 1..64 x every shift 0..2N-1 x
+//!               every unit vector with coefficient {1, q-1, generic} + dense, vs refmodel::poly::pshift
+//!  * `extract`  constant coefficient of assemble(extract(ct, i)) = m_i for EVERY i, both input
+//!               representations (coefficient / NTT form), every unit monomial +-X^p and a dense message
+//!  * `trace`    field_trace_inplace with EVERY l = 0..log2 N: coefficient index multiple of N/2^l is
+//!               multiplied by N/2^l, the rest is zero (also after divide_by_poly_modulus_degree_inplace)
+//!  * `pack`     pack_lwe_ciphertexts for EVERY k = 1..N: value j at index j*N/2^ceil(log2 k), scale 1,
+//!               zeros elsewhere; index j from the j-th ciphertext and every fixed index
+//!
+//! A-priori noise bound (absolute value of the phase error, B = 21 the sampler's clipping bound):
+//!   fresh      v0  = B(2N+1) + N + 2                       (+ t in BFV: rounding of Delta*m)
+//!   one key switch Eks = k N B 2^max(0, maxbits(q_i) - bits(P) + 1) * 4 + 2(N+1)
+//!   trace l    V   = (N/2^l) c v0 + (N/2^l) Eks            (c = optional multiplier)
+//!   pack k     V   = v0 + N 2^l Eks,  l = ceil(log2 k)      (every injected key-switching error is
+//!                                                          amplified by at most N on its way out)
+//! A case is judged only when V leaves >= 3 bits of head-room below q/(2t) (BFV), q/2 (BGV: t V + t,
+//! CKKS: V + scale * max|expected|); CKKS values are compared with tolerance V/scale.
+
 use crate::engine::*;
+use crate::he::*;
+use crate::refmodel::poly::pshift;
+use heathcliff::app::lwe::LWECiphertext;
+use heathcliff::verif_hooks::polysmallmod as psm;
+use heathcliff::*;
+use serde::{Deserialize, Serialize};
+use std::time::Duration;
 
-pub fn describe(_rep: &Report) {}
+pub fn describe(rep: &Report) {
+    rep.set_rule(
+        "shift: case = (N, moduli, variant), loops every shift 0..2N-1 x every unit vector (3 coefficient values) + dense. \
+         extract: case = (parameter set, level, input representation, message), loops EVERY index i. \
+         trace: case = (parameter set, level, l, pre-scaling, message), one trace, all N coefficients compared. \
+         pack: case = (parameter set, level, k, index rule, message family); the unit family loops over every position j0 of \
+         the single non-zero LWE. messages: every unit monomial +-X^p and one dense generic polynomial. \
+         non-trivial = the expected result has a non-zero coefficient (or, for units, the zeroing of a non-zero input is checked).",
+    );
+    rep.assume("decryption + BatchEncoder/CKKSEncoder::decode_polynomial_new are the observation (coefficient view); they are the subject of other properties");
+    rep.assume("a-priori noise bound of the module header decides when a result is judged (never exceeded with 3 primes of 54/54/55 bits; with 30/30/30 bits only the CKKS second level is skipped: scale 2^40 does not fit a 30-bit modulus)");
+    rep.assume("t is an odd prime (257 and 17), so N/2^l is invertible modulo t");
+    rep.assume("CKKS results are compared with tolerance V/scale (scale 2^40), V the a-priori bound");
+}
 
-pub fn sections(_cfg: &RunCfg) -> Vec<Box<dyn AnySection>> {
-    vec![]
+// ------------------------------------------------------------------------------------------------
+// direct: negacyclic_shift
+// ------------------------------------------------------------------------------------------------
+
+#[derive(Serialize, Deserialize, Clone, Debug)]
+pub struct SCase {
+    pub n: usize,
+    pub q: Vec<u64>,
+    /// "single" | "p" | "ps"
+    pub variant: String,
+}
+
+fn shift_vectors(n: usize, q: u64, seed: u64) -> Vec<Vec<u64>> {
+    let mut v = vec![vec![0u64; n]];
+    for i in 0..n {
+        for c in [1u64 % q, q - 1, h64(&(seed, "shift", i, q)) % q] {
+            let mut e = vec![0u64; n];
+            e[i] = c;
+            v.push(e);
+        }
+    }
+    v.push((0..n).map(|i| h64(&(seed, "dense", i, q)) % q).collect());
+    v
+}
+
+fn run_shift(c: &SCase, seed: u64) -> CaseOut {
+    let n = c.n;
+    let mods: Vec<Modulus> = match guard(|| c.q.iter().map(|&q| Modulus::new(q)).collect()) {
+        Ok(m) => m,
+        Err(p) => return CaseOut::fail(format!("shift:{}:modulus_new:panic:{}", c.variant, panic_class(&p)), "Modulus::new accepts the value", p),
+    };
+    let pcount = if c.variant == "ps" { 2 } else { 1 };
+    let per_mod: Vec<Vec<Vec<u64>>> = c.q.iter().map(|&q| shift_vectors(n, q, seed)).collect();
+    let nvec = per_mod[0].len();
+    let mut steps = 0u64;
+    for s in 0..2 * n {
+        for vi in 0..nvec {
+            // input laid out as pcount polys x moduli x n (the second poly uses the reversed vector list)
+            let mut input: Vec<u64> = vec![];
+            let mut expect: Vec<u64> = vec![];
+            for p in 0..pcount {
+                for (mi, &q) in c.q.iter().enumerate() {
+                    let v = &per_mod[mi][if p == 0 { vi } else { nvec - 1 - vi }];
+                    input.extend_from_slice(v);
+                    expect.extend(pshift(v, s, q));
+                }
+            }
+            let mut out = vec![0xDEAD_BEEFu64; input.len()];
+            let r = guard(|| match c.variant.as_str() {
+                "single" => psm::negacyclic_shift(&input, s, &mods[0], &mut out),
+                "p" => psm::negacyclic_shift_p(&input, s, n, &mods, &mut out),
+                _ => psm::negacyclic_shift_ps(&input, s, pcount, n, &mods, &mut out),
+            });
+            steps += 1;
+            match r {
+                Err(p) => {
+                    return CaseOut::fail(
+                        format!("shift:{}:panic:{}", c.variant, panic_class(&p)),
+                        format!("no panic for N={n} shift={s} input={input:?}"),
+                        p,
+                    )
+                }
+                Ok(()) => {
+                    if out != expect {
+                        return CaseOut::fail(
+                            format!("shift:{}:wrong", c.variant),
+                            format!("N={n} q={:?} shift={s} input={input:?} -> {expect:?}", c.q),
+                            format!("{out:?}"),
+                        );
+                    }
+                }
+            }
+        }
+    }
+    CaseOut::pass(n > 1, h64(&(c.variant.as_str(), n, c.q.len())), steps)
+}
+
+// ------------------------------------------------------------------------------------------------
+// scheme-level helpers
+// ------------------------------------------------------------------------------------------------
+
+#[derive(Serialize, Deserialize, Clone, Debug, PartialEq, Eq, Hash)]
+pub enum Msg {
+    /// +-X^pos  (neg: coefficient t-1 resp. -1.0)
+    Unit { pos: usize, neg: bool },
+    /// dense generic polynomial (distinct pseudo-random residues from the seed)
+    Dense,
+}
+
+#[derive(Serialize, Deserialize, Clone, Copy, Debug, PartialEq, Eq, Hash)]
+pub enum Repr {
+    /// the scheme's own representation (BFV coefficient form, BGV/CKKS NTT form)
+    Natural,
+    /// the other one (BFV transformed to NTT form, BGV/CKKS transformed from it)
+    Other,
+}
+
+const CKKS_SCALE: f64 = (1u64 << 40) as f64;
+const B_ERR: f64 = 21.0;
+
+struct Sys {
+    kit: Kit,
+    level: usize,
+    bat: Option<BatchEncoder>,
+    ck: Option<CKKSEncoder>,
+    keys: Option<GaloisKeys>,
+    qbits: f64,
+    eks: f64,
+    v0: f64,
+}
+
+enum Dec {
+    Int(Vec<u64>),
+    Real(Vec<f64>),
+}
+
+impl Sys {
+    /// keys are a function of (seed, spec, noise) only; the caller re-seeds for its own encryptions
+    fn new(spec: &ParamSpec, level: usize, noise: Noise, seed: u64, with_keys: bool) -> Result<Sys, String> {
+        // a ternary key is all-zero with probability 3^-N (1/81 at N = 4): such a key would make every
+        // placement check vacuous (phase = c0), so the derivation is repeated with the next tag
+        let mut attempt = 0u64;
+        let kit = loop {
+            env(seed, h64(&("c19-kit", spec, noise, attempt)), noise.mode(), noise.mode());
+            let kit = guard(|| Kit::new(spec))??;
+            if kit.sk.data().iter().any(|&x| x != 0) || attempt >= 16 {
+                break kit;
+            }
+            attempt += 1;
+        };
+        let levels = kit.levels();
+        if level >= levels.len() {
+            return Err("level does not exist".into());
+        }
+        let keys = if with_keys { Some(guard(|| kit.keygen.create_automorphism_keys(false))?) } else { None };
+        let (bat, ck) = if spec.scheme == Scheme::CKKS {
+            (None, Some(guard(|| CKKSEncoder::new(kit.ctx.clone()))?))
+        } else {
+            (Some(guard(|| BatchEncoder::new(kit.ctx.clone()))?), None)
+        };
+        let mods = kit.moduli_at(&levels[level]);
+        let qbits: f64 = mods.iter().map(|&q| (q as f64).log2()).sum();
+        let key_mods = kit.moduli_at(kit.ctx.key_parms_id());
+        let spbits = (*key_mods.last().unwrap() as f64).log2().floor() + 1.0;
+        let maxbits = mods.iter().map(|&q| (q as f64).log2().floor() + 1.0).fold(0.0, f64::max);
+        let n = spec.n as f64;
+        let eks = mods.len() as f64 * n * B_ERR * (2f64).powf((maxbits - spbits + 1.0).max(0.0)) * 4.0 + 2.0 * (n + 1.0);
+        let mut v0 = B_ERR * (2.0 * n + 1.0) + n + 2.0;
+        if spec.scheme == Scheme::BFV {
+            v0 += spec.t as f64;
+        }
+        Ok(Sys { kit, level, bat, ck, keys, qbits, eks, v0 })
+    }
+    fn n(&self) -> usize {
+        self.kit.spec.n
+    }
+    fn t(&self) -> u64 {
+        self.kit.spec.t
+    }
+    fn scheme(&self) -> Scheme {
+        self.kit.spec.scheme
+    }
+    fn natural_ntt(&self) -> bool {
+        self.scheme() != Scheme::BFV
+    }
+    fn keys(&self) -> &GaloisKeys {
+        self.keys.as_ref().unwrap()
+    }
+
+    /// Is a result with phase error at most `v` and expected values at most `maxabs` judged? CKKS tolerance.
+    fn judged(&self, v: f64, maxabs: f64) -> Option<f64> {
+        let t = self.t() as f64;
+        let need = match self.scheme() {
+            Scheme::BFV => v.log2() + t.log2() + 1.0,
+            Scheme::BGV => (t * v + t).log2() + 1.0,
+            Scheme::CKKS => (v + CKKS_SCALE * (maxabs + 1.0)).log2() + 1.0,
+        };
+        if need + 3.0 >= self.qbits {
+            return None;
+        }
+        let tol = if self.scheme() == Scheme::CKKS { v / CKKS_SCALE + 1e-9 } else { 0.0 };
+        if tol >= 0.2 {
+            return None;
+        }
+        Some(tol)
+    }
+
+    fn dense(&self, seed: u64, j: usize) -> Vec<i64> {
+        let n = self.n();
+        (0..n)
+            .map(|i| {
+                let g = h64(&(seed, "c19-dense", j, i));
+                if self.scheme() == Scheme::CKKS {
+                    (g % 33) as i64 - 16
+                } else {
+                    let t = self.t();
+                    let r = g % t;
+                    // never 0, so that a lost coefficient is visible
+                    let r = if r == 0 { 1 } else { r };
+                    if r > t / 2 {
+                        r as i64 - t as i64
+                    } else {
+                        r as i64
+                    }
+                }
+            })
+            .collect()
+    }
+    fn message(&self, m: &Msg, seed: u64, j: usize) -> Vec<i64> {
+        match m {
+            Msg::Unit { pos, neg } => {
+                let mut v = vec![0i64; self.n()];
+                v[*pos] = if *neg { -1 } else { 1 };
+                v
+            }
+            Msg::Dense => self.dense(seed, j),
+        }
+    }
+
+    fn encrypt(&self, m: &[i64]) -> Result<Ciphertext, String> {
+        guard(|| {
+            let pt = match self.scheme() {
+                Scheme::CKKS => {
+                    let v: Vec<f64> = m.iter().map(|&x| x as f64).collect();
+                    self.ck.as_ref().unwrap().encode_f64_polynomial_new(&v, None, CKKS_SCALE)
+                }
+                _ => {
+                    let t = self.t() as i64;
+                    let v: Vec<u64> = m.iter().map(|&x| x.rem_euclid(t) as u64).collect();
+                    self.bat.as_ref().unwrap().encode_polynomial_new(&v)
+                }
+            };
+            let mut ct = self.kit.enc.encrypt_new(&pt);
+            for _ in 0..self.level {
+                self.kit.eval.mod_switch_to_next_inplace(&mut ct);
+            }
+            ct
+        })
+    }
+
+    /// coefficient view of the decryption (ciphertext brought to the form the decryptor asks for)
+    fn decode(&self, ct: &Ciphertext) -> Result<Dec, String> {
+        guard(|| {
+            let mut c = ct.clone();
+            if self.natural_ntt() && !c.is_ntt_form() {
+                self.kit.eval.transform_to_ntt_inplace(&mut c);
+            } else if !self.natural_ntt() && c.is_ntt_form() {
+                self.kit.eval.transform_from_ntt_inplace(&mut c);
+            }
+            let pt = self.kit.dec.decrypt_new(&c);
+            match self.scheme() {
+                Scheme::CKKS => Dec::Real(self.ck.as_ref().unwrap().decode_polynomial_new(&pt)),
+                _ => {
+                    let mut v = self.bat.as_ref().unwrap().decode_polynomial_new(&pt);
+                    v.truncate(pt.coeff_count().max(1));
+                    v.resize(self.n(), 0);
+                    Dec::Int(v)
+                }
+            }
+        })
+    }
+
+    /// first index in `idx` where the decoded value differs from the expected signed integer
+    fn mismatch(&self, d: &Dec, exp: &[i64], idx: impl Iterator<Item = usize>, tol: f64) -> Option<(usize, String, String)> {
+        let t = self.t() as i64;
+        for i in idx {
+            match d {
+                Dec::Int(v) => {
+                    let e = exp[i].rem_euclid(t) as u64;
+                    if v.len() != exp.len() || v[i] != e {
+                        return Some((i, format!("{e}"), format!("{:?}", v.get(i))));
+                    }
+                }
+                Dec::Real(v) => {
+                    if v.len() != exp.len() || !((v[i] - exp[i] as f64).abs() <= tol) {
+                        return Some((i, format!("{} (+-{tol:.3e})", exp[i]), format!("{:?}", v.get(i))));
+                    }
+                }
+            }
+        }
+        None
+    }
+    fn show(&self, d: &Dec) -> String {
+        match d {
+            Dec::Int(v) => format!("{v:?}"),
+            Dec::Real(v) => format!("{:?}", v.iter().map(|x| (x * 1e4).round() / 1e4).collect::<Vec<_>>()),
+        }
+    }
+    fn show_exp(&self, exp: &[i64]) -> String {
+        if self.scheme() == Scheme::CKKS {
+            format!("{exp:?}")
+        } else {
+            let t = self.t() as i64;
+            format!("{:?}", exp.iter().map(|x| x.rem_euclid(t)).collect::<Vec<_>>())
+        }
+    }
+}
+
+fn log2_exact(n: usize) -> usize {
+    n.trailing_zeros() as usize
+}
+
+// ------------------------------------------------------------------------------------------------
+// extract / assemble
+// ------------------------------------------------------------------------------------------------
+
+#[derive(Serialize, Deserialize, Clone, Debug)]
+pub struct XCase {
+    pub spec: ParamSpec,
+    pub level: usize,
+    pub noise: Noise,
+    pub repr: Repr,
+    pub msg: Msg,
+}
+
+fn lwe_shape_ok(l: &LWECiphertext, ct: &Ciphertext) -> bool {
+    l.poly_modulus_degree() == ct.poly_modulus_degree()
+        && l.coeff_modulus_size() == ct.coeff_modulus_size()
+        && l.c0().len() == ct.coeff_modulus_size()
+        && l.c1().len() == ct.coeff_modulus_size() * ct.poly_modulus_degree()
+        && l.parms_id() == ct.parms_id()
+        && l.scale() == ct.scale()
+        && l.correction_factor() == ct.correction_factor()
+}
+
+fn run_extract(c: &XCase, seed: u64) -> CaseOut {
+    let sys = match Sys::new(&c.spec, c.level, c.noise, seed, false) {
+        Ok(s) => s,
+        Err(e) => return CaseOut::skip(&format!("parameter set not usable: {}", panic_class(&e))),
+    };
+    let sc = format!("{:?}", c.spec.scheme);
+    let key = |what: &str| format!("extract:{sc}:{:?}:{what}", c.repr);
+    env(seed, h64(&("c19-extract", serde_json::to_string(c).unwrap())), c.noise.mode(), c.noise.mode());
+    let m = sys.message(&c.msg, seed, 0);
+    let Some(tol) = sys.judged(sys.v0, 16.0) else { return CaseOut::skip("a-priori noise bound exceeds the head-room") };
+    let ct = match sys.encrypt(&m) {
+        Ok(ct) => ct,
+        Err(p) => return CaseOut::fail(key(&format!("encrypt:panic:{}", panic_class(&p))), "encryption of a valid message", p),
+    };
+    // the representation handed to extract_lwe
+    let input = match guard(|| match (c.repr, ct.is_ntt_form()) {
+        (Repr::Natural, _) => ct.clone(),
+        (Repr::Other, true) => sys.kit.eval.transform_from_ntt_new(&ct),
+        (Repr::Other, false) => sys.kit.eval.transform_to_ntt_new(&ct),
+    }) {
+        Ok(x) => x,
+        Err(p) => return CaseOut::fail(key(&format!("transform:panic:{}", panic_class(&p))), "NTT transform of a fresh ciphertext", p),
+    };
+    if input.is_ntt_form() != (sys.natural_ntt() == (c.repr == Repr::Natural)) {
+        return CaseOut::fail(key("repr"), "fresh ciphertext in the scheme's natural representation", format!("is_ntt_form={}", ct.is_ntt_form()));
+    }
+    let n = sys.n();
+    let mut steps = 0u64;
+    for i in 0..n {
+        let lwe = match guard(|| sys.kit.eval.extract_lwe(&input, i)) {
+            Ok(l) => l,
+            Err(p) => return CaseOut::fail(key(&format!("extract:panic:{}", panic_class(&p))), format!("extract_lwe(term={i}) of a valid 2-component ciphertext"), p),
+        };
+        if !lwe_shape_ok(&lwe, &input) {
+            return CaseOut::fail(key("lwe-meta"), format!("LWE metadata of the source ciphertext ({})", ct_meta(&input)), format!("{lwe:?}").chars().take(300).collect::<String>());
+        }
+        let (a, b) = match guard(|| (sys.kit.eval.assemble_lwe(&lwe), lwe.assemble_lwe())) {
+            Ok(x) => x,
+            Err(p) => return CaseOut::fail(key(&format!("assemble:panic:{}", panic_class(&p))), format!("assemble_lwe after extract_lwe(term={i})"), p),
+        };
+        if ct_fingerprint(&a) != ct_fingerprint(&b) {
+            return CaseOut::fail(key("assemble-forms-differ"), "Evaluator::assemble_lwe == LWECiphertext::assemble_lwe", format!("{} vs {}", ct_meta(&a), ct_meta(&b)));
+        }
+        if a.is_ntt_form() || a.size() != 2 || a.parms_id() != input.parms_id() || !a.is_valid_for(&sys.kit.ctx) {
+            return CaseOut::fail(key("assemble-meta"), "valid 2-component ciphertext in coefficient form at the source level", ct_meta(&a));
+        }
+        let d = match sys.decode(&a) {
+            Ok(d) => d,
+            Err(p) => return CaseOut::fail(key(&format!("decrypt:panic:{}", panic_class(&p))), format!("assembled ciphertext (term={i}) decrypts"), p),
+        };
+        steps += 1;
+        // only the constant coefficient is specified
+        let mut exp = vec![0i64; n];
+        exp[0] = m[i];
+        if let Some((_, e, o)) = sys.mismatch(&d, &exp, 0..1, tol) {
+            return CaseOut::fail(
+                key("wrong"),
+                format!("message {} (level {}), term {i}: constant coefficient {e}", sys.show_exp(&m), c.level),
+                format!("{o}; decoded {}", sys.show(&d)),
+            );
+        }
+    }
+    CaseOut::pass(true, h64(&(sc.as_str(), c.repr, matches!(c.msg, Msg::Dense), c.level)), steps)
+}
+
+// ------------------------------------------------------------------------------------------------
+// field trace
+// ------------------------------------------------------------------------------------------------
+
+#[derive(Serialize, Deserialize, Clone, Copy, Debug, PartialEq, Eq, Hash)]
+pub enum Pre {
+    /// trace only
+    None,
+    /// divide_by_poly_modulus_degree_inplace(ct, None) first (only with l = 0: N * 1/N = 1)
+    DivN,
+    /// divide_by_poly_modulus_degree_inplace(ct, Some(c * 2^l)) first: overall factor c
+    DivMul(u64),
+}
+
+#[derive(Serialize, Deserialize, Clone, Debug)]
+pub struct TCase {
+    pub spec: ParamSpec,
+    pub level: usize,
+    pub noise: Noise,
+    pub l: usize,
+    pub pre: Pre,
+    pub msg: Msg,
+}
+
+fn run_trace(c: &TCase, seed: u64) -> CaseOut {
+    let sys = match Sys::new(&c.spec, c.level, c.noise, seed, true) {
+        Ok(s) => s,
+        Err(e) => return CaseOut::skip(&format!("parameter set not usable: {}", panic_class(&e))),
+    };
+    let sc = format!("{:?}", c.spec.scheme);
+    let pre = match c.pre {
+        Pre::None => "plain",
+        Pre::DivN => "divN",
+        Pre::DivMul(_) => "divNmul",
+    };
+    let key = |what: &str| format!("trace:{sc}:{pre}:{what}");
+    let n = sys.n();
+    let logn = log2_exact(n);
+    if c.l > logn || (c.pre == Pre::DivN && c.l != 0) {
+        return CaseOut::skip("outside the enumerated domain");
+    }
+    env(seed, h64(&("c19-trace", serde_json::to_string(c).unwrap())), c.noise.mode(), c.noise.mode());
+    let m = sys.message(&c.msg, seed, 0);
+    let stride = n >> c.l;
+    // overall integer factor on the kept coefficients
+    let factor: i64 = match c.pre {
+        Pre::None => stride as i64,
+        Pre::DivN => 1,
+        Pre::DivMul(x) => x as i64,
+    };
+    let exp: Vec<i64> = (0..n).map(|i| if i % stride == 0 { factor * m[i] } else { 0 }).collect();
+    let mult = match c.pre {
+        Pre::DivMul(x) => x as f64,
+        _ => 1.0,
+    };
+    let v = stride as f64 * mult * sys.v0 + stride as f64 * sys.eks;
+    let maxabs = exp.iter().map(|x| x.abs()).max().unwrap() as f64;
+    let Some(tol) = sys.judged(v, maxabs) else { return CaseOut::skip("a-priori noise bound exceeds the head-room") };
+    let mut ct = match sys.encrypt(&m) {
+        Ok(ct) => ct,
+        Err(p) => return CaseOut::fail(key(&format!("encrypt:panic:{}", panic_class(&p))), "encryption of a valid message", p),
+    };
+    let before = (*ct.parms_id(), ct.is_ntt_form(), ct.scale().to_bits(), ct.correction_factor(), ct.size());
+    if let Err(p) = guard(|| match c.pre {
+        Pre::None => {}
+        Pre::DivN => sys.kit.eval.divide_by_poly_modulus_degree_inplace(&mut ct, None),
+        Pre::DivMul(x) => sys.kit.eval.divide_by_poly_modulus_degree_inplace(&mut ct, Some(x << c.l)),
+    }) {
+        return CaseOut::fail(key(&format!("divide:panic:{}", panic_class(&p))), "divide_by_poly_modulus_degree_inplace on a fresh ciphertext", p);
+    }
+    if let Err(p) = guard(|| sys.kit.eval.field_trace_inplace(&mut ct, sys.keys(), c.l)) {
+        return CaseOut::fail(key(&format!("panic:{}", panic_class(&p))), format!("field_trace_inplace(l={}) with create_automorphism_keys on a fresh ciphertext", c.l), p);
+    }
+    let after = (*ct.parms_id(), ct.is_ntt_form(), ct.scale().to_bits(), ct.correction_factor(), ct.size());
+    if before != after {
+        return CaseOut::fail(key("meta"), format!("level, representation, scale, correction factor, size unchanged: {before:?}"), format!("{after:?}"));
+    }
+    let d = match sys.decode(&ct) {
+        Ok(d) => d,
+        Err(p) => return CaseOut::fail(key(&format!("decrypt:panic:{}", panic_class(&p))), "traced ciphertext decrypts", p),
+    };
+    if let Some((i, e, o)) = sys.mismatch(&d, &exp, 0..n, tol) {
+        let class = if i % stride == 0 { "wrong-kept" } else { "wrong-zeroed" };
+        return CaseOut::fail(
+            key(class),
+            format!("N={n} l={} level={} message {} -> {} (index {i}: {e})", c.l, c.level, sys.show_exp(&m), sys.show_exp(&exp)),
+            format!("index {i}: {o}; decoded {}", sys.show(&d)),
+        );
+    }
+    let nonzero = exp.iter().any(|&x| x != 0);
+    CaseOut::pass(true, h64(&(sc.as_str(), pre, c.l, nonzero, c.level)), 1)
+}
+
+// ------------------------------------------------------------------------------------------------
+// pack
+// ------------------------------------------------------------------------------------------------
+
+#[derive(Serialize, Deserialize, Clone, Copy, Debug, PartialEq, Eq, Hash)]
+pub enum Idx {
+    /// index j from the j-th ciphertext
+    Diag,
+    /// the same index from all
+    Fixed(usize),
+}
+
+#[derive(Serialize, Deserialize, Clone, Copy, Debug, PartialEq, Eq, Hash)]
+pub enum PMsg {
+    /// ciphertext j encrypts its own dense generic polynomial
+    Dense,
+    /// for every j0 < k: ciphertext j0 encrypts +-X^idx(j0), all others encrypt 0  (k packings)
+    UnitEach { neg: bool },
+}
+
+#[derive(Serialize, Deserialize, Clone, Debug)]
+pub struct PCase {
+    pub spec: ParamSpec,
+    pub level: usize,
+    pub noise: Noise,
+    pub k: usize,
+    pub idx: Idx,
+    pub msg: PMsg,
+}
+
+fn run_pack(c: &PCase, seed: u64) -> CaseOut {
+    let sys = match Sys::new(&c.spec, c.level, c.noise, seed, true) {
+        Ok(s) => s,
+        Err(e) => return CaseOut::skip(&format!("parameter set not usable: {}", panic_class(&e))),
+    };
+    let sc = format!("{:?}", c.spec.scheme);
+    let n = sys.n();
+    let k = c.k;
+    if k == 0 || k > n || matches!(c.idx, Idx::Fixed(i) if i >= n) {
+        return CaseOut::skip("outside the enumerated domain");
+    }
+    let kclass = if k == 1 {
+        "k=1"
+    } else if k.is_power_of_two() {
+        "k=pow2"
+    } else {
+        "k=other"
+    };
+    let idxs = match c.idx {
+        Idx::Diag => "diag",
+        Idx::Fixed(_) => "fixed",
+    };
+    let key = |what: &str| format!("pack:{sc}:{idxs}:{kclass}:{what}");
+    let mut l = 0usize;
+    while (1usize << l) < k {
+        l += 1;
+    }
+    let stride = n >> l;
+    let index_of = |j: usize| match c.idx {
+        Idx::Diag => j,
+        Idx::Fixed(i) => i,
+    };
+    env(seed, h64(&("c19-pack", serde_json::to_string(c).unwrap())), c.noise.mode(), c.noise.mode());
+    let v = sys.v0 + n as f64 * (1u64 << l) as f64 * sys.eks;
+    let Some(tol) = sys.judged(v, 16.0) else { return CaseOut::skip("a-priori noise bound exceeds the head-room") };
+
+    let extract = |m: &[i64], i: usize| -> Result<LWECiphertext, CaseOut> {
+        let ct = sys.encrypt(m).map_err(|p| CaseOut::fail(key(&format!("encrypt:panic:{}", panic_class(&p))), "encryption of a valid message", p))?;
+        guard(|| sys.kit.eval.extract_lwe(&ct, i))
+            .map_err(|p| CaseOut::fail(key(&format!("extract:panic:{}", panic_class(&p))), format!("extract_lwe(term={i}) of a fresh ciphertext"), p))
+    };
+    // one packing, all N coefficients compared
+    let pack_and_check = |lwes: &[LWECiphertext], exp: &[i64], what: &dyn Fn() -> String| -> Option<CaseOut> {
+        let ct = match guard(|| sys.kit.eval.pack_lwe_ciphertexts(lwes, sys.keys())) {
+            Ok(ct) => ct,
+            Err(p) => return Some(CaseOut::fail(key(&format!("panic:{}", panic_class(&p))), format!("pack_lwe_ciphertexts of {k} <= N = {n} LWEs of one level: {}", what()), p)),
+        };
+        let lw = &lwes[0];
+        if ct.is_ntt_form() != sys.natural_ntt() || ct.size() != 2 || ct.parms_id() != lw.parms_id() || ct.scale() != lw.scale() || ct.correction_factor() != lw.correction_factor() || !ct.is_valid_for(&sys.kit.ctx) {
+            return Some(CaseOut::fail(key("meta"), "valid 2-component ciphertext in the scheme's representation, level/scale/correction factor of the inputs", ct_meta(&ct)));
+        }
+        let d = match sys.decode(&ct) {
+            Ok(d) => d,
+            Err(p) => return Some(CaseOut::fail(key(&format!("decrypt:panic:{}", panic_class(&p))), "packed ciphertext decrypts", p)),
+        };
+        if let Some((i, e, o)) = sys.mismatch(&d, exp, 0..n, tol) {
+            let class = if exp[i] != 0 {
+                "wrong-value"
+            } else if i % stride == 0 && i / stride < k {
+                "wrong-slot"
+            } else {
+                "wrong-zero"
+            };
+            return Some(CaseOut::fail(
+                key(class),
+                format!("N={n} k={k} stride={stride} level={} {}: {} (index {i}: {e})", c.level, what(), sys.show_exp(exp)),
+                format!("index {i}: {o}; decoded {}", sys.show(&d)),
+            ));
+        }
+        None
+    };
+
+    let mut steps = 0u64;
+    match c.msg {
+        PMsg::Dense => {
+            let mut lwes = vec![];
+            let mut exp = vec![0i64; n];
+            let mut vals = vec![];
+            for j in 0..k {
+                let m = sys.message(&Msg::Dense, seed, j);
+                exp[j * stride] = m[index_of(j)];
+                vals.push(m[index_of(j)]);
+                match extract(&m, index_of(j)) {
+                    Ok(l) => lwes.push(l),
+                    Err(f) => return f,
+                }
+            }
+            steps += 1;
+            if let Some(f) = pack_and_check(&lwes, &exp, &|| format!("dense messages, extracted values {vals:?} (indices {idxs})")) {
+                return f;
+            }
+        }
+        PMsg::UnitEach { neg } => {
+            let zero = vec![0i64; n];
+            let mut zeros = vec![];
+            let mut units = vec![];
+            for j in 0..k {
+                match extract(&zero, index_of(j)) {
+                    Ok(l) => zeros.push(l),
+                    Err(f) => return f,
+                }
+                let m = sys.message(&Msg::Unit { pos: index_of(j), neg }, seed, j);
+                match extract(&m, index_of(j)) {
+                    Ok(l) => units.push(l),
+                    Err(f) => return f,
+                }
+            }
+            for j0 in 0..k {
+                let lwes: Vec<LWECiphertext> = (0..k).map(|j| if j == j0 { units[j].clone() } else { zeros[j].clone() }).collect();
+                let mut exp = vec![0i64; n];
+                exp[j0 * stride] = if neg { -1 } else { 1 };
+                steps += 1;
+                if let Some(f) = pack_and_check(&lwes, &exp, &|| format!("LWE {j0} holds {}1 (from X^{}), all others 0", if neg { "-" } else { "+" }, index_of(j0))) {
+                    return f;
+                }
+            }
+        }
+    }
+    CaseOut::pass(true, h64(&(sc.as_str(), idxs, kclass, l, matches!(c.msg, PMsg::Dense), c.level)), steps)
+}
+
+// ------------------------------------------------------------------------------------------------
+// enumeration
+// ------------------------------------------------------------------------------------------------
+
+fn specs(cfg: &RunCfg) -> Vec<(ParamSpec, Vec<usize>, Vec<Noise>)> {
+    let ns: &[usize] = if cfg.thorough() { &[4, 8, 16, 32, 64] } else { &[4, 8, 16] };
+    let mut v = vec![];
+    for &n in ns {
+        // main family: 3 primes of 54/54/55 bits (the last one is the special prime), t in {257, 17}
+        let q = chain(n, &[54, 54, 55]);
+        for s in Scheme::all() {
+            let ts: &[u64] = if s == Scheme::CKKS { &[0] } else { &[257, 17] };
+            for &t in ts {
+                // worst-case sampler scripts (all +max / alternating) on the small degrees
+                let noises = if n <= 16 && t != 17 { vec![Noise::Real, Noise::AllMax, Noise::Alt] } else { vec![Noise::Real] };
+                v.push((ParamSpec::new(s, n, q.clone(), t), vec![0, 1], noises));
+            }
+        }
+        // the shape of the repository's unit tests: three 30-bit primes, t = 17 (CKKS: the second level
+        // cannot hold scale 2^40 and is skipped by the noise/size bound)
+        if n == 16 || (cfg.thorough() && n == 32) {
+            let q = chain(n, &[30, 30, 30]);
+            for s in Scheme::all() {
+                v.push((ParamSpec::new(s, n, q.clone(), 17), vec![0, 1], vec![Noise::Real]));
+            }
+        }
+    }
+    v
+}
+
+fn unit_msgs(n: usize) -> Vec<Msg> {
+    let mut v = vec![];
+    for neg in [false, true] {
+        for pos in 0..n {
+            v.push(Msg::Unit { pos, neg });
+        }
+    }
+    v.push(Msg::Dense);
+    v
+}
+
+pub fn sections(cfg: &RunCfg) -> Vec<Box<dyn AnySection>> {
+    let seed = cfg.seed;
+    let mut out: Vec<Box<dyn AnySection>> = vec![];
+
+    // (i) negacyclic_shift directly
+    let mut sc: Vec<SCase> = vec![];
+    let big = ntt_primes(64, 60, 2);
+    for logn in 0..=6 {
+        let n = 1usize << logn;
+        for q in [2u64, 3, 97, big[0], (1u64 << 61) - 1] {
+            sc.push(SCase { n, q: vec![q], variant: "single".into() });
+        }
+        for qs in [vec![97u64, 2], vec![big[0], big[1]], vec![3, big[1], 97]] {
+            sc.push(SCase { n, q: qs.clone(), variant: "p".into() });
+            sc.push(SCase { n, q: qs, variant: "ps".into() });
+        }
+    }
+    out.push(E1::new(
+        "shift",
+        "negacyclic_shift/_p/_ps: N = 1,2,..,64 x every shift 0..2N-1 x every unit vector (coefficients 1, q-1, generic) + zero + dense; moduli 2, 3, 97, 60-bit prime, 2^61-1",
+        sc.into_iter(),
+        move |c: &SCase| run_shift(c, seed),
+    ));
+
+    let sp = specs(cfg);
+
+    // (ii) extract / assemble
+    let mut xc: Vec<XCase> = vec![];
+    for (spec, levels, noises) in &sp {
+        for &level in levels {
+            for &noise in noises {
+                for repr in [Repr::Natural, Repr::Other] {
+                    for msg in unit_msgs(spec.n) {
+                        xc.push(XCase { spec: spec.clone(), level, noise, repr, msg });
+                    }
+                }
+            }
+        }
+    }
+    out.push(
+        E1::new(
+            "extract",
+            "N in {4,8,16} (thorough +32,64) x {BFV,BGV,CKKS} x q in {54/54/55-bit primes with t in {257,17}; 30/30/30-bit with t=17 at N=16 (thorough +32)} x sampler script {real; all-max, alternating at N<=16,t=257} x level {first, after one mod switch} x both input representations x every +-X^p and a dense message x EVERY extraction index i",
+            xc.into_iter(),
+            move |c: &XCase| run_extract(c, seed),
+        )
+        .deadline(Duration::from_secs(30)),
+    );
+
+    // (iii) field trace
+    let mut tc: Vec<TCase> = vec![];
+    for (spec, levels, noises) in &sp {
+        let logn = log2_exact(spec.n);
+        for &level in levels {
+            for &noise in noises {
+                for l in 0..=logn {
+                    for msg in unit_msgs(spec.n) {
+                        tc.push(TCase { spec: spec.clone(), level, noise, l, pre: Pre::None, msg });
+                    }
+                    let mut pres = vec![Pre::DivMul(1), Pre::DivMul(3)];
+                    if l == 0 {
+                        pres.push(Pre::DivN);
+                    }
+                    for pre in pres {
+                        tc.push(TCase { spec: spec.clone(), level, noise, l, pre, msg: Msg::Dense });
+                        tc.push(TCase { spec: spec.clone(), level, noise, l, pre, msg: Msg::Unit { pos: spec.n - (spec.n >> l), neg: true } });
+                    }
+                }
+            }
+        }
+    }
+    out.push(
+        E1::new(
+            "trace",
+            "same parameter sets x EVERY l = 0..log2 N x every +-X^p and a dense message; plus divide_by_poly_modulus_degree_inplace(None | c*2^l, c in {1,3}) before the trace",
+            tc.into_iter(),
+            move |c: &TCase| run_trace(c, seed),
+        )
+        .deadline(Duration::from_secs(30)),
+    );
+
+    // (iv) pack
+    let mut pc: Vec<PCase> = vec![];
+    for (spec, levels, noises) in &sp {
+        let n = spec.n;
+        for &level in levels {
+            for &noise in noises {
+                for k in 1..=n {
+                    pc.push(PCase { spec: spec.clone(), level, noise, k, idx: Idx::Diag, msg: PMsg::Dense });
+                    for i0 in 0..n {
+                        pc.push(PCase { spec: spec.clone(), level, noise, k, idx: Idx::Fixed(i0), msg: PMsg::Dense });
+                    }
+                    for neg in [false, true] {
+                        pc.push(PCase { spec: spec.clone(), level, noise, k, idx: Idx::Diag, msg: PMsg::UnitEach { neg } });
+                        pc.push(PCase { spec: spec.clone(), level, noise, k, idx: Idx::Fixed(n - 1), msg: PMsg::UnitEach { neg } });
+                    }
+                }
+            }
+        }
+    }
+    // simplest first: small N, small k
+    pc.sort_by_key(|c| (c.spec.n, c.k));
+    out.push(
+        E1::new(
+            "pack",
+            "same parameter sets x EVERY k = 1..N x {index j from ciphertext j, EVERY fixed index} with dense messages; unit family (one LWE +-1, the others 0, every position) for index j and fixed index N-1",
+            pc.into_iter(),
+            move |c: &PCase| run_pack(c, seed),
+        )
+        .deadline(Duration::from_secs(60)),
+    );
+    out
 }
